@@ -146,7 +146,7 @@ fn lib_msg(ctx: &mut Ctx, m: &LMsg) -> Option<StunMessage> {
 
 /// message whose attribute bytes total exactly `total` (multiple of 4), assembled from
 /// DATA / PADDING / SOFTWARE / MOBILITY-TICKET of varied sizes, optionally with a tail
-fn assemble(rng: &mut Rng, total: usize, with_tail: bool) -> LMsg {
+pub fn assemble(rng: &mut Rng, total: usize, with_tail: bool) -> LMsg {
     let tb: u8 = if with_tail { 1 + rng.below(7) as u8 } else { 0 };
     let tail = gen::tail(tb);
     let tail_bytes: usize = tail
